@@ -605,9 +605,18 @@ func init() {
 			c := Iface{T: e.ctxT, V: e.newOpaque("ctx", args[0], nil, nil)}
 			return Tuple{c, Closure{Native: func(e *Engine, a []Val) Val { return nil }}}
 		},
-		"time.Now": func(e *Engine, fn *ssa.Function, args []Val) Val { return zero(fn.Signature.Results().At(0).Type()) },
+		// a clock that advances: the k-th reading on a path is 10 s after the previous one (wall = 0: no monotonic
+		// reading, ext = seconds since year 1, loc = nil: UTC); harnesses must not observe instants
+		"time.Now": func(e *Engine, fn *ssa.Function, args []Val) Val {
+			t := zero(fn.Signature.Results().At(0).Type()).(Agg)
+			e.clock++
+			t.F[1] = Int{W: 64, S: true, C: uint64(63_800_000_000 + 10*int64(e.clock))}
+			return t
+		},
 		"github.com/fxamacker/cbor/v2.Marshal":   stubCborMarshal,
 		"github.com/fxamacker/cbor/v2.Unmarshal": stubCborUnmarshal,
+		"encoding/json.Marshal":                  stubBoxMarshal,
+		"encoding/json.Unmarshal":                stubBoxUnmarshal,
 		"internal/bytealg.CountString": stubCount,
 		"internal/bytealg.Count":       stubCount,
 		"internal/bytealg.IndexString": stubIndex,
@@ -1071,8 +1080,113 @@ func stubCborMarshal(e *Engine, fn *ssa.Function, args []Val) Val {
 		}
 		return mk(append([]Val{Int{W: 8, C: 0xfb}}, e.beBytes(bits, 8)...))
 	}
+	if _, ok := v.T.Underlying().(*types.Struct); ok {
+		return stubBoxMarshal(e, fn, args)
+	}
 	unsup("cbor.Marshal of %s", v.T)
 	return nil
+}
+
+// ---- boxed codec ----
+// Marshal of a struct value through a reflection-based codec (encoding/json, cbor) is modelled as a box:
+// the bytes are a fixed tag followed by the number of a per-path table entry that keeps a deep copy of the
+// value; Unmarshal into a pointer to the same type copies it back. The model is the identity on round
+// trips (the real codecs may normalise: time zones, sub-second precision under cbor's default time mode);
+// any other use of the bytes (other target type, foreign bytes) is refused as unsupported.
+const boxTag = 0xB7
+
+func (e *Engine) snapshot(v Val, seen map[*Obj]*Obj) Val {
+	switch x := v.(type) {
+	case Agg:
+		n := Agg{F: make([]Val, len(x.F))}
+		for i, f := range x.F {
+			n.F[i] = e.snapshot(f, seen)
+		}
+		return n
+	case Ptr:
+		if x.O == nil {
+			return x
+		}
+		return Ptr{O: e.snapshotObj(x.O, seen), P: x.P, SD: x.SD}
+	case Slice:
+		if x.O == nil {
+			return x
+		}
+		return Slice{O: e.snapshotObj(x.O, seen), Base: x.Base, Off: x.Off, Len: x.Len, Cap: x.Cap}
+	case Iface:
+		return Iface{T: x.T, V: e.snapshot(x.V, seen)}
+	case Tuple:
+		n := make(Tuple, len(x))
+		for i, f := range x {
+			n[i] = e.snapshot(f, seen)
+		}
+		return n
+	}
+	return v
+}
+
+func (e *Engine) snapshotObj(o *Obj, seen map[*Obj]*Obj) *Obj {
+	if n, ok := seen[o]; ok {
+		return n
+	}
+	n := e.newObj(nil)
+	seen[o] = n
+	n.V = e.snapshot(o.V, seen)
+	return n
+}
+
+func stubBoxMarshal(e *Engine, fn *ssa.Function, args []Val) Val {
+	v := args[0].(Iface)
+	if v.T == nil {
+		unsup("%s of nil", fn)
+	}
+	t := v.T
+	val := v.V
+	if pt, ok := t.Underlying().(*types.Pointer); ok {
+		p := val.(Ptr)
+		if p.O == nil {
+			unsup("%s of nil pointer", fn)
+		}
+		t, val = pt.Elem(), e.load(p)
+	}
+	if _, ok := t.Underlying().(*types.Struct); !ok {
+		unsup("%s of %s (only struct values are boxed)", fn, t)
+	}
+	e.boxes = append(e.boxes, boxed{t: t, v: e.snapshot(val, map[*Obj]*Obj{})})
+	id := len(e.boxes) - 1
+	cells := []Val{Int{W: 8, C: boxTag}, Int{W: 8, C: uint64(id >> 8)}, Int{W: 8, C: uint64(id & 0xff)}}
+	return Tuple{Slice{O: e.newObj(Agg{F: cells}), Len: len(cells), Cap: len(cells)}, Iface{}}
+}
+
+func stubBoxUnmarshal(e *Engine, fn *ssa.Function, args []Val) Val {
+	cells := e.bytesOf(args[0])
+	dst := args[1].(Iface)
+	p, ok := dst.V.(Ptr)
+	if !ok || dst.T == nil || p.O == nil {
+		unsup("%s into %v", fn, dst.T)
+	}
+	et := dst.T.(*types.Pointer).Elem()
+	if len(cells) != 3 {
+		unsup("%s of bytes that are not a box (%d bytes)", fn, len(cells))
+	}
+	var c [3]uint64
+	for i := range c {
+		b, ok := cells[i].(Int)
+		if !ok || b.sym() {
+			unsup("%s of symbolic bytes", fn)
+		}
+		c[i] = b.C
+	}
+	id := int(c[1]<<8 | c[2])
+	if c[0] != boxTag || id >= len(e.boxes) {
+		unsup("%s of bytes that are not a box", fn)
+	}
+	b := e.boxes[id]
+	if !types.Identical(b.t, et) {
+		unsup("%s: box holds %s, target is %s", fn, b.t, et)
+	}
+	e.store(p, e.snapshot(b.v, map[*Obj]*Obj{}))
+	return Iface{}
 }
 
 func stubCborUnmarshal(e *Engine, fn *ssa.Function, args []Val) Val {
@@ -1090,6 +1204,9 @@ func stubCborUnmarshal(e *Engine, fn *ssa.Function, args []Val) Val {
 	hdr := cells[0].(Int)
 	is := func(c uint64) bool { return e.branch(intEq(hdr, Int{W: 8, C: c})) }
 	bt, _ := et.Underlying().(*types.Basic)
+	if _, ok := et.Underlying().(*types.Struct); ok {
+		return stubBoxUnmarshal(e, fn, args)
+	}
 	if bt == nil {
 		unsup("cbor.Unmarshal into %s", et)
 	}
